@@ -29,7 +29,7 @@ TARGETS = ['valjean.eponine.apollo3.hdf5_reader:Reader.read_file', 'valjean.epon
            'valjean.eponine.tripoli4.common:DictBuilder._flip_bins_for_dim',
            'valjean.eponine.tripoli4.data_convertor:bins_reduction', 'valjean.eponine.tripoli4.data_convertor:convert_data',
            'valjean.eponine.tripoli4.transform:convert_data_in_place']
-SRC = '/repo/tests/eponine/tripoli4/data/gauss_E_time_mu_phi.res.ceav5'
+SRC = os.environ.get('VERIF_TREE', '/repo') + '/tests/eponine/tripoli4/data/gauss_E_time_mu_phi.res.ceav5'
 BOUNDS = {'quick': {'responses per listing': 2, 'energy groups': '1-3', 'second dimension': 'none, time steps (1-3) or mu zones (1-3)',
                     'printing order': 'increasing or decreasing, independently per dimension', 'scores': 'distinct positive tags, one solver-chosen cell zero or negative'},
           'thorough': {'responses per listing': '1 (1-4 energy groups) or 2 (1 energy group)', 'energy groups': '1-4', 'second dimension': 'none, time (1-3), mu (1-3), time x mu (2x2)',
